@@ -425,7 +425,10 @@ def Y2(ctx):
         n += 1
         ctx.touch(w["fn"], 1)
         if ck == VV + "::join":
-            if fk in ALLOWED_CAUSALITY_JOIN:
+            src_ok = False
+            if prog.fns[w["fn"]].j.get("impl_adt") == SYNC and cons:
+                src_ok = mentions_field(arg_expr(prog.fns[w["fn"]].body, cons[1], 1), SYNC, "happens_before") is not None
+            if fk in ALLOWED_CAUSALITY_JOIN or src_ok:
                 ctx.ok("Y2", fk, "inventoried join into causality", [site_str(prog, w["fn"], w["bb"])])
             else:
                 ctx.bad("Y2", fk, "an extra happens-before edge: %s joins a clock into a thread's causality outside the "
@@ -452,27 +455,40 @@ def Y2(ctx):
 # ---- Y3 / Y4: ordering tables ---------------------------------------------------------------------
 
 def _table_matcher(prog, i, b, t, c):
+    """Effects, classified by what is joined into what (independent of helper names):
+    acq = thread.causality <- sync.happens_before; rel = sync.happens_before <- thread.causality;
+    relfence = sync.happens_before <- thread.released."""
     key = prog.callee_key(c)
-    short = {SYNC + "::sync_acq": "sync_acq", SYNC + "::sync_rel": "sync_rel", "rt::thread::Set::seq_cst": "seq_cst",
-             "rt::atomic::fence_acq": "fence_acq", "rt::atomic::fence_rel": "fence_rel",
-             "rt::thread::Set::seq_cst_fence": "seq_cst_fence", VV + "::join": "join"}
+    if key == VV + "::join":
+        body = prog.body_of(i)
+        a0 = arg_expr(body, t, 0)
+        a1 = arg_expr(body, t, 1)
+        if mentions_field(a0, T, "causality") and mentions_field(a1, SYNC, "happens_before"):
+            return ["acq"]
+        if mentions_field(a0, SYNC, "happens_before") and mentions_field(a1, T, "causality"):
+            return ["rel"]
+        if mentions_field(a0, SYNC, "happens_before") and mentions_field(a1, T, "released"):
+            return ["relfence"]
+        return ["join?"]
+    short = {"rt::thread::Set::seq_cst": "seq_cst", "rt::atomic::fence_acq": "fence_acq", "rt::atomic::fence_rel": "fence_rel",
+             "rt::thread::Set::seq_cst_fence": "seq_cst_fence"}
     return [short[key]] if key in short else []
 
 
 def Y3(ctx):
     prog = ctx.prog
     want = {
-        SYNC + "::sync_load": {"Relaxed": set(), "Release": set(), "Acquire": {"sync_acq"}, "AcqRel": {"sync_acq"},
-                               "SeqCst": {"sync_acq", "seq_cst"}},
-        SYNC + "::sync_store": {"Relaxed": {"join"}, "Acquire": {"join"}, "Release": {"join", "sync_rel"},
-                                "AcqRel": {"join", "sync_rel"}, "SeqCst": {"join", "sync_rel", "seq_cst"}},
+        SYNC + "::sync_load": {"Relaxed": set(), "Release": set(), "Acquire": {"acq"}, "AcqRel": {"acq"},
+                               "SeqCst": {"acq", "seq_cst"}},
+        SYNC + "::sync_store": {"Relaxed": {"relfence"}, "Acquire": {"relfence"}, "Release": {"relfence", "rel"},
+                                "AcqRel": {"relfence", "rel"}, "SeqCst": {"relfence", "rel", "seq_cst"}},
     }
     for fn_key, tab in want.items():
         root = prog.ident(fn_key)
         if root is None:
             ctx.missing("Y3", fn_key)
             continue
-        ea = EventAnalysis(prog, _table_matcher, stop=lambda i: prog.insts[i].key != fn_key).solve([root])
+        ea = EventAnalysis(prog, _table_matcher, stop=lambda i: not prog.insts[i].key.startswith("rt::synchronize::")).solve([root])
         ctx.touch(fn_key, 5)
         got = dispatch_table(prog, root, param_name(prog.fns[fn_key], ORD_TY), ea, ORDERINGS)
         if got is None:
@@ -490,27 +506,6 @@ def Y3(ctx):
                          "" if returns else " (and does not return)") +
                         (" - treats a weaker ordering as a stronger one" if more else " - drops a required synchronisation"),
                         prog.fns[fn_key].loc(), detail=name)
-    # directions of sync_acq / sync_rel and the release-fence view in sync_store
-    dirs = [
-        (SYNC + "::sync_acq", ("field", T, "causality"), ("field", SYNC, "happens_before")),
-        (SYNC + "::sync_rel", ("field", SYNC, "happens_before"), ("field", T, "causality")),
-        (SYNC + "::sync_store", ("field", SYNC, "happens_before"), ("field", T, "released")),
-    ]
-    for fn_key, dst, src in dirs:
-        fn = need_fn(ctx, "Y3", fn_key)
-        if fn is None:
-            continue
-        inst = prog.ident(fn_key)
-        ok = False
-        for (b, t, c) in prog.sites(inst):
-            if prog.callee_key(c) == VV + "::join":
-                a0 = arg_expr(fn.body, t, 0)
-                a1 = arg_expr(fn.body, t, 1)
-                if mentions_field(a0, dst[1], dst[2]) and mentions_field(a1, src[1], src[2]):
-                    ok = True
-                    ctx.ok("Y3", fn_key + ":direction", "%s.join(%s)" % (dst[2], src[2]), [site_str(prog, fn_key, b)])
-        if not ok:
-            ctx.bad("Y3", fn_key, "%s must join %s into %s" % (fn_key.split("::")[-1], src[2], dst[2]), fn.loc(), detail="direction")
 
 
 def Y4(ctx):
